@@ -47,3 +47,106 @@ def bad_token(outs):
             if t in o:
                 return t
     return None
+
+
+def strip_enc(nodes):
+    out = []
+    for n in nodes:
+        if n.is_master():
+            out.append(E.Node(n.tag, None, strip_enc(n.children)))
+        else:
+            out.append(E.Node(n.tag, None, None, None))
+    return out
+
+
+def present(rng, nodes, p_full=0.4):
+    """choose a presentation for the writer: returns (ops, nodes') where ops = list of (opt, tag) and nodes' is the
+    document actually described (children of a Full are written with default options, so their encodings are reset)"""
+    ops, out = [], []
+    for n in nodes:
+        opt = "d" if n.enc is None else ("u" if n.enc == "u" else str(n.enc))
+        if n.is_master():
+            if rng.random() < p_full:
+                kids = strip_enc(n.children)
+                ops.append((opt, ("m", n.tag[1], E.nodes_to_full(kids))))
+                out.append(E.Node(n.tag, n.enc, kids))
+            else:
+                ops.append((opt, ("s", n.tag[1])))
+                sub_ops, kids = present(rng, n.children, p_full)
+                ops += sub_ops
+                ops.append(("d", ("e", n.tag[1])))
+                out.append(E.Node(n.tag, n.enc, kids))
+        else:
+            ops.append((opt, n.tag))
+            out.append(n)
+    return ops, out
+
+
+def ops_line(ops, final="x"):
+    s = ["w%s:%s" % (o, E.tag_str(t)) for (o, t) in ops]
+    if final:
+        s.append(final)
+    return ",".join(s) if s else "-"
+
+
+def fix_widths(nodes):
+    """make every explicit width satisfiable (reset to default where the size does not fit)"""
+    for n in nodes:
+        if n.is_master():
+            fix_widths(n.children)
+        if isinstance(n.enc, int):
+            try:
+                E.encode([n])
+            except AssertionError:
+                n.enc = None
+    return nodes
+
+
+def spec_of_line(line, field=1):
+    f = line.split(" ")[field]
+    ents = []
+    if f == "-":
+        return E.Spec([])
+    for e in f.split(";"):
+        i, t, p = e.split(":")
+        parts = []
+        for x in (p.split("/") if p else []):
+            if x.startswith("("):
+                a, b = x[1:-1].split("-")
+                parts.append((int(a) if a else None, int(b) if b else None))
+            else:
+                parts.append(int(x, 16))
+        ents.append((int(i, 16), t, parts))
+    return E.Spec(ents)
+
+
+def item_tags(tokens):
+    """R tokens -> (list of tags, terminal token or None)"""
+    its = E.parse_items(tokens)
+    tags = [x[1] for x in its if x[0] == "item"]
+    term = None
+    for x in its:
+        if x[0] != "item":
+            term = x
+            break
+    return tags, term
+
+
+def tags_equal(a, b):
+    """tag equality with all NaNs identified"""
+    if len(a) != len(b):
+        return False
+    for x, y in zip(a, b):
+        if x[0] == "f" and y[0] == "f" and x[1] == y[1] and E.is_nan_bits(x[2]) and E.is_nan_bits(y[2]):
+            continue
+        if x[0] == "m" and y[0] == "m" and x[1] == y[1]:
+            if not tags_equal(x[2], y[2]):
+                return False
+            continue
+        if x != y:
+            return False
+    return True
+
+
+def specs_pool(rng, n_random):
+    return [E.base_spec(), E.rec_spec()] + [E.random_spec(rng) for _ in range(n_random)]
